@@ -199,7 +199,7 @@ def level_a_cases(env, R):
     over = [0, M24 - 1, M24, M24 + 1]
     mid = [0, 1, M23 - 1, M23, M23 + 1]
     top = [M23 - 1, M23, M23 + 1, M24 - 1]
-    n4 = env.scale(5, 6)
+    n4 = 6
     fams.append(("perm:wrap", list(fam_perm(wrap, n4))))
     fams.append(("perm:half", list(fam_perm(half, n4))))
     fams.append(("perm:small", list(fam_perm([1, 2, 3], 6))))
@@ -220,7 +220,7 @@ def stack_script(rng, R, forced=None):
     evs = [["S", 0, 0, 0, False, True, None, rel, 1, None, 0, 4]]
     t = 3
     cur = rng.choice([0, 1, 7, M23 - 2, M23, M24 - 3, M24 - 1, rng.randrange(M24)])
-    first = forced or rng.choice(["piggy", "piggy", "sep", "sep", "noobs", "rst", "err", "shutdown", "cancel"])
+    first = forced or rng.choice(["piggy"] * 5 + ["sep"] * 5 + ["noobs", "rst", "err", "shutdown", "cancel"])
     if not rel and first in ("piggy", "rst"):
         first = "sep"
     mid = 300
@@ -282,6 +282,10 @@ def stack_script(rng, R, forced=None):
             evs.append(R_(mt, 69, m, v, 10 + i, remote=1))          # right token, wrong endpoint
         elif r > 0.9:
             evs.append(R_(mt, 69, m, v, 10 + i, tok="22"))          # unknown token
+        elif r > 0.84:
+            # malformed: an error response that carries an Observe option is a notification
+            # (the runner and the token manager only look at the option)
+            evs.append(R_(mt, rng.choice([132, 160]), m, v, 10 + i))
         else:
             evs.append(R_(mt, 69, m, v, 10 + i))
     evs.append(["A", t + 10])
@@ -323,7 +327,7 @@ def run_level_b(env, rep, R):
     scripts += bnd
     for first in ("piggy", "sep", "noobs", "rst", "err", "shutdown", "cancel"):
         scripts += [stack_script(env.rng, R, forced=first) for _ in range(env.scale(6, 100))]
-    scripts += [stack_script(env.rng, R) for _ in range(env.scale(120, 4000))]
+    scripts += [stack_script(env.rng, R) for _ in range(env.scale(350, 6000))]
     lines, impl, cases = [], [], []
     for sc in scripts:
         res = c07_stack.run_stack(sc)
